@@ -510,7 +510,7 @@ func mutate(rng *rand.Rand, t ht.Tree, m string) (ht.Tree, bool) {
 		}
 		p := pick(rng, links)
 		e := t[p]
-		e.D = pick(rng, ht.TargetPool)
+		e.D = pick(rng, ht.NestedTargetPool)
 		n[p] = e
 	case "kind-file-dir":
 		// empty file <-> empty dir; file "x" <-> dir{f="x"}
